@@ -813,7 +813,8 @@ class Valet(object):
                 if requestant.persisted:
                     if requestant.parser is None:  # reuse
                         requestant.makeParser()  # resets requestant parser
-                else:  # not persistent so close and remove requestant and responder
+                elif requestant.ended:  # not persistent so close and remove requestant and responder
+                    # (not while the next request is still arriving: its head already set .persisted)
                     ix = self.servant.ixes[ca]
                     if not ix.txes:  # wait for outgoing txes to be empty
                         self.closeConnection(ca)
